@@ -14,7 +14,7 @@
   Callbacks are data (`Beh`): the `n`-th FIRE invocation of the callback of watch slot `k` runs a
   list of actions.  Unbind and destroy notifications are passive (they are logged, they do not act).
 
-  The variants of the source text that the proposed repairs introduce are a `Config`; the driver
+  The variants of the source text that the repairs introduced (all of them have landed in /repo) are a `Config`; the driver
   takes it from `Gen/EvLoop.lean`, which is regenerated from the C source on every run.
 
   Core Lean only; everything is structurally recursive (loops whose length depends on what callbacks
